@@ -63,7 +63,7 @@ theorem no_pending_continues (rb : Res)
 
 /-- Any other error (also `exit`'s interrupt) aborts the loop with that error in `ctx.Err`. -/
 theorem error_aborts (rb : Res) (e : Err) (h : rb.err = some e) (hs : isSentinel e = false) :
-    iterAfterBody rb = .abort { rb.st with c := { rb.st.c with err := some e } } := by
+    iterAfterBody rb = .abort { rb.st with c := { rb.st.c with err := some e, brkD := rb.st.c.brkD - 1 } } := by
   unfold iterAfterBody
   simp [h, hs]
 
